@@ -69,32 +69,52 @@ func TestColdStart(t *testing.T) {
 func TestMain(m *testing.M) { vk.Main(m, "C01") }
 
 // TestFirst runs right after the cold-start probe, before any larger input has been seen: index lengths in
-// ASCENDING order around every power of two. A buffer that the library grows and reuses (pool, slab, scratch)
-// then passes through every capacity step exactly when an index of that length is built.
+// ASCENDING order - every length 0..130, then around every power of two. A buffer that the library grows and
+// reuses (pool, slab, scratch) then passes through every capacity step exactly when an index of that length is
+// built, and a defect confined to a window of lengths (41..61 words, say) is met by several bitmaps whose last
+// word matters.
 func TestFirst(t *testing.T) {
 	vk.SetPhase("first")
-	shard := 0
+	content := func(n, style int) vk.Words {
+		w := make(vk.Words, n)
+		for i := range w {
+			switch style {
+			case 0:
+				w[i] = ^uint64(0)
+			case 1:
+				w[i] = vk.Mix(uint64(n)*977 + uint64(i))
+			}
+		}
+		if style == 2 && n > 0 { // nothing but the very last bit: the grand total differs from every other entry
+			w[n-1] = 1 << 63
+		}
+		return w
+	}
+	// EVERY length 0..130 (all positions are queried up to 64 words): full, mixed and last-bit-only content
+	for n := 0; n <= 130; n++ {
+		for style := 0; style < 3; style++ {
+			checker.Run(t, Case{Words: content(n, style), Style: "grid-every-length"})
+		}
+	}
 	// lengths around every power of two up to 1024 words (index lengths that coincide with the
 	// capacity steps of any growing or pooled buffer), dense and mixed content
-	if shard == 0 {
-		for k := 0; k <= 10; k++ {
-			for d := -2; d <= 2; d++ {
-				n := 1<<uint(k) + d
-				if n < 0 {
-					continue
-				}
-				for style := 0; style < 2; style++ {
-					w := make(vk.Words, n)
-					for i := range w {
-						if style == 0 {
-							w[i] = ^uint64(0)
-						} else {
-							w[i] = vk.Mix(uint64(n)*977 + uint64(i))
-						}
-					}
-					checker.Run(t, Case{Words: w, Style: "grid-pow2-length"})
-				}
+	for k := 8; k <= 10; k++ {
+		for d := -2; d <= 2; d++ {
+			n := 1<<uint(k) + d
+			for style := 0; style < 3; style++ {
+				checker.Run(t, Case{Words: content(n, style), Style: "grid-pow2-length"})
 			}
+		}
+	}
+	// 2^k-1, 2^k, 2^k+1 and two sizes inside every octave from 128 to 2^17 words, all styles in turn; in the
+	// process that varies GOMAXPROCS those up to 2^14 words meet every setting (a builder that cuts its input into
+	// per-CPU chunks above some size)
+	for i, n := range linSweepSizes(7, 16, 1) {
+		spec := LinSpec{N: n, Key: vk.U64(vk.Mix(uint64(n) * 31)), Style: i % len(linStyles)}
+		if n <= 1<<14 {
+			vk.ProcsSweep(func() { checker.Run(t, Case{Lin: &spec, Style: "lin-sweep"}) })
+		} else {
+			checker.Run(t, Case{Lin: &spec, Style: "lin-sweep"})
 		}
 	}
 }
@@ -104,6 +124,7 @@ type Case struct {
 	Max    int          `json:"max,omitempty"` // v+1: the maximum bitmap, exactly 2^25 words = 2^31 bits, description v (gen.UseMax)
 	Words  vk.Words     `json:"words,omitempty"`
 	Big    *gen.BigSpec `json:"big,omitempty"`
+	Lin    *LinSpec     `json:"lin,omitempty"` // a bitmap of up to 2^25 words checked in one linear pass (lin_test.go)
 	Style  string       `json:"style,omitempty"`
 	Probes []int32      `json:"probes,omitempty"` // extra positions for large bitmaps
 }
@@ -122,7 +143,9 @@ var checker = &vk.Checker[Case]{
 	Rule: "bitmaps drawn by style (zero, ones, mixed palette/density words, sparse, dense, islands, exact-count, tail, palette) and length class, " +
 		"plus a complete grid of all bitmaps of 0..4 (thorough 0..5) words over a 12-word palette; every position 0<=i<64*len is queried for bitmaps <= 64 words " +
 		"(otherwise all word boundaries +-1, 2-word windows and sampled positions) with Rank64 (plain, false, true index) and Rank128, against a bit-by-bit running count; the indexes are checked and used only AFTER indexes of other bitmaps (other contents, shorter, longer) have been built, so a result that aliases library-owned memory is seen. " +
-		"Also the MAXIMUM bitmap - exactly 2^25 words = 2^31 bits, the largest one int32 positions address (three sparse descriptions, oracle from the description): indexes and ranks at the top positions, around every set word and in the long zero runs. " +
+		"Lengths: every length 0..130 in ascending order at the start of the process, drawn lengths up to 40 / 64 / 130 / a log-uniform bound <= 1024 words (thorough 4096); the empty bitmap is passed as nil, as an empty non-nil slice and as an empty slice with spare capacity; non-empty ones as a private copy, a reused buffer with guarded spare capacity or a slice starting 1..3 words into a larger buffer; some drawn bitmaps get full (or empty) words at k = r mod m only. " +
+		"Bitmaps of 65 .. 2^25 words whose word k is a function of (key, style, k) (uniform, sparse, dense, islands of 2^r words, ones with holes, one bit per word, some words full/empty) are checked in one linear pass with a table popcount of the oracle's own: every entry of all four indexes, Rank64/Rank128 at one offset of every word (every 13th word above 2^20 words; all 64 offsets occur) and at all 64 offsets of ~100 words (first, last, around every power of two, spread by the key); sizes log-uniform up to 2^17 words (thorough 2^20) plus a sweep 2^k-1, 2^k, 2^k+1 and two inner sizes for every octave 2^7..2^16 (up to 2^14 words under every GOMAXPROCS setting in the process that varies it) and 2^17..2^24 (quick: 2^17..2^22, one size per octave). " +
+		"Also the MAXIMUM bitmap - exactly 2^25 words = 2^31 bits, the largest one int32 positions address: three sparse descriptions (oracle from the description: every entry of both indexes, ranks at the top positions, around every set word, around every 2^k and at 192 spread positions in the long zero runs) and dense content with up to 2^31-1 ones (linear pass as above). " +
 		"Non-trivial: >= 2 words, contains both a 0 and a 1 (so a right-half Rank128 query with a non-zero own-word popcount is executed). Distinct by hash of the case.",
 	Check:    check,
 	Classify: classify,
@@ -134,6 +157,9 @@ func classify(c Case) (bool, []string) {
 	}
 	if len(c.Style) > 11 && c.Style[:11] == "cold-start:" {
 		return false, []string{"cold-start-failure"}
+	}
+	if c.Lin != nil {
+		return classifyLin(*c.Lin)
 	}
 	w := c.words()
 	has0, has1 := false, false
@@ -153,11 +179,15 @@ func classify(c Case) (bool, []string) {
 	}
 	switch {
 	case len(w) == 0:
-		labels = append(labels, "len:0")
+		labels = append(labels, "len:0", "empty-bitmap-passed-as-nil-and-as-empty-slice")
 	case len(w) <= 4:
 		labels = append(labels, "len:1-4")
-	case len(w) <= 64:
+	case len(w) <= 40:
 		labels = append(labels, "len:5-64")
+	case len(w) <= 64:
+		labels = append(labels, "len:5-64", "len:41-64")
+	case len(w) <= 130:
+		labels = append(labels, "len:65-4096", "len:65-130")
 	case len(w) <= 4096:
 		labels = append(labels, "len:65-4096")
 	default:
@@ -194,7 +224,36 @@ func checkMax(v int) *vk.Failure {
 			return vk.Failf("index128-entry", "2^25-word bitmap: IndexRank128[%d] = %d, want %d", k/2, idx128[k/2], want)
 		}
 	}
-	for _, p := range gen.MaxProbes() {
+	// every entry of both indexes, against the description (sparse oracle: the count changes at the set words only)
+	{
+		set := gen.MaxSetWords()
+		cnt, si := int32(0), 0
+		for k := 0; k <= gen.MaxWords; k++ {
+			if idxT[k] != cnt {
+				return vk.Failf("index64-entry", "2^25-word bitmap: IndexRank64(true)[%d] = %d, want %d", k, idxT[k], cnt)
+			}
+			if k&1 == 0 && idx128[k>>1] != cnt {
+				return vk.Failf("index128-entry", "2^25-word bitmap: IndexRank128[%d] = %d, want %d", k>>1, idx128[k>>1], cnt)
+			}
+			if si < len(set) && set[si] == k {
+				for x := gen.MaxWord(k); x != 0; x >>= 1 {
+					cnt += int32(x & 1)
+				}
+				si++
+			}
+		}
+	}
+	probes := gen.MaxProbes()
+	// positions inside the long zero runs and next to every 2^k-th word, at varying in-word offsets
+	for i := uint64(0); i < 192; i++ {
+		probes = append(probes, int64(vk.Mix(uint64(v)<<32+i)>>33))
+	}
+	for k := uint(7); k < 31; k++ {
+		for _, d := range []int64{-65, -33, -2, 0, 17, 45, 61} {
+			probes = append(probes, int64(1)<<k+d)
+		}
+	}
+	for _, p := range probes {
 		wantC, wantB := int32(gen.MaxRank(p)), int32(gen.MaxBit(p))
 		var c1, b1, c2, b2 int32
 		if f := vk.Try(fmt.Sprintf("Rank64/Rank128 at %d on 2^25 words", p), func() {
@@ -216,7 +275,7 @@ func checkMax(v int) *vk.Failure {
 	return nil
 }
 
-func check(c Case) (f *vk.Failure) {
+func check(c Case) *vk.Failure {
 	if c.Max > 0 {
 		return checkMax(c.Max - 1)
 	}
@@ -226,16 +285,72 @@ func check(c Case) (f *vk.Failure) {
 		}
 		return nil
 	}
+	if c.Lin != nil {
+		return checkLin(*c.Lin)
+	}
 	orig := c.words()
-	words := vk.Words(orig).Clone() // what the code under test sees: a private copy ...
-	reused := scratch.Reuse(vk.SumU64(orig))
-	if reused {
-		words = scratch.U64(orig) // ... or, every other case, a reused buffer with guarded spare capacity
+	sum := vk.SumU64(orig)
+	if len(orig) == 0 {
+		// the empty bitmap, in every shape a caller can hand it over: a nil slice, an empty non-nil slice, an
+		// empty slice with (guarded) spare capacity at the start and in the middle of a larger buffer
+		for _, shape := range []int{shapeNil, shapeClone, shapeScratch, shapeCarved} {
+			if f := checkShape(c, orig, shape, sum); f != nil {
+				f.Msg = "the empty bitmap passed as " + shapeNames[shape] + ": " + f.Msg
+				return f
+			}
+		}
+		return nil
+	}
+	shape := shapeClone
+	if scratch.Reuse(sum) {
+		shape = shapeScratch
+	} else if vk.Mix(sum^0xca57ed)&1 == 0 {
+		shape = shapeCarved
+	}
+	return checkShape(c, orig, shape, sum)
+}
+
+// How the bitmap argument is handed to the library (a function of the case, so that a replay does the same).
+const (
+	shapeClone   = iota // a private exact-size copy
+	shapeNil            // a nil slice (the empty bitmap only)
+	shapeScratch        // a reused buffer with guarded spare capacity (vk.Scratch)
+	shapeCarved         // a slice that starts 1..3 words into a larger buffer, foreign non-zero words around it
+)
+
+var shapeNames = []string{"an empty non-nil slice", "a nil slice", "an empty slice with spare capacity", "an empty slice in the middle of a buffer"}
+
+func checkShape(c Case, orig []uint64, shape int, sum uint64) (f *vk.Failure) {
+	var words, carved []uint64
+	carveOff := 0
+	switch shape {
+	case shapeNil:
+		words = nil // only used for len(orig) == 0
+	case shapeScratch:
+		words = scratch.U64(orig) // a reused buffer with guarded spare capacity
+	case shapeCarved:
+		carveOff = 1 + int(vk.Mix(sum^0x0ff5e7)%3)
+		carved = make([]uint64, carveOff+len(orig)+3)
+		for i := range carved {
+			carved[i] = 0xCA11AB1E00000000 | uint64(i)
+		}
+		copy(carved[carveOff:], orig)
+		words = carved[carveOff : carveOff+len(orig) : len(carved)]
+	default:
+		words = vk.Words(orig).Clone() // what the code under test sees: a private copy
 	}
 	defer func() {
-		if f == nil && reused {
+		if f == nil && shape == shapeScratch {
 			if msg := scratch.Check(); msg != "" {
 				f = vk.Failf("argument-spare-capacity-written", "%s", msg)
+			}
+		}
+		if f == nil {
+			for i := range carved {
+				if (i < carveOff || i >= carveOff+len(orig)) && carved[i] != 0xCA11AB1E00000000|uint64(i) {
+					f = vk.Failf("argument-spare-capacity-written", "word %d outside the %d-word bitmap argument (which starts at word %d of a larger buffer) was written", i, len(orig), carveOff)
+					break
+				}
 			}
 		}
 		if f == nil {
@@ -396,7 +511,20 @@ func check(c Case) (f *vk.Failure) {
 			}
 		}
 	}
-	for _, p := range c.Probes {
+	probes := c.Probes
+	if len(probes) == 0 {
+		// no sampled positions in the case: four 2-word windows and 96 positions, a function of the content
+		for i := uint64(0); i < 4; i++ {
+			start := int(vk.Mix(sum+i*0x77) % uint64(nbits-127))
+			for j := 0; j < 128; j++ {
+				probes = append(probes, int32(start+j))
+			}
+		}
+		for i := uint64(0); i < 96; i++ {
+			probes = append(probes, int32(vk.Mix(sum^i*0x9e5) % uint64(nbits)))
+		}
+	}
+	for _, p := range probes {
 		if p < 0 || int(p) >= nbits {
 			continue
 		}
@@ -446,6 +574,11 @@ func fmtInt(v int64) string {
 func genCase(t *rapid.T) Case {
 	maxWords := vk.Pick(40, 4096)
 	bigEvery := vk.Pick(200, 40)
+	if gen.Chance(t, 1, 12, "linclass") {
+		// 65 .. 2^17 (thorough 2^20) words, log-uniform: no size between the all-positions region and the largest
+		// inputs is left out; every index entry is compared, ranks are queried in every word
+		return genLin(t, 65, vk.Pick(1<<17, 1<<20))
+	}
 	if gen.Chance(t, 1, bigEvery, "bigclass") {
 		// large bitmap: compact spec + sampled probes
 		var spec gen.BigSpec
@@ -467,7 +600,29 @@ func genCase(t *rapid.T) Case {
 		}
 		return Case{Big: &spec, Style: "big", Probes: probes}
 	}
+	// length classes: the quick tier used to stop at 40 words (and to resume at 65 in the big class only)
+	switch gen.Uniform(t, 8, "lenclass") {
+	case 0:
+		maxWords = max(maxWords, 64)
+	case 1:
+		maxWords = max(maxWords, 130)
+	case 2:
+		maxWords = linSize(t, 41, vk.Pick(1024, 4096), "lenmax")
+	}
 	w, style := gen.Bitmap(t, maxWords, "bm")
+	if len(w) >= 2 && gen.Chance(t, 1, 8, "somewords") {
+		// a per-word attribute (full / empty) that only SOME words have: those at k = r mod m
+		m := 2 + gen.Uniform(t, 4, "somewords.m")
+		r := gen.Uniform(t, m, "somewords.r")
+		fill, name := uint64(0), "+some-words-empty"
+		if gen.Chance(t, 1, 2, "somewords.full") {
+			fill, name = ^uint64(0), "+some-words-full"
+		}
+		for k := r; k < len(w); k += m {
+			w[k] = fill
+		}
+		style += name
+	}
 	return Case{Words: w, Style: style}
 }
 
@@ -528,8 +683,23 @@ func TestGrid(t *testing.T) {
 // library cannot mask anything the ordinary cases would have met.
 func TestLast(t *testing.T) {
 	vk.SetPhase("last")
+	// sizes between the largest ordinary inputs and the maximum: every octave from 2^17 to 2^24 words, 1-bit counts up
+	// to 2^30 (quick: octaves 17..22 only, one of 2^k-1, 2^k, 2^k+1, two inner sizes per octave, picked by the seed; thorough: all five)
+	sizes := linSweepSizes(17, vk.Pick(22, 24), 2)
+	for i, n := range sizes {
+		if !vk.Thorough() && uint64(i%5) != (vk.Seed()+uint64(i/5))%5 {
+			continue
+		}
+		style := []int{4, 2, 0, 3, 6, 1, 5}[(uint64(i)+vk.Seed())%7]
+		checker.Run(t, Case{Lin: &LinSpec{N: n, Key: vk.U64(vk.Mix(uint64(n) * 131)), Style: style}, Style: "lin-large"})
+	}
 	for v := 0; v < gen.MaxVariants; v++ {
 		checker.Run(t, Case{Max: v + 1, Style: "maximum"})
+	}
+	// the maximum bitmap with dense content: 1-bit counts up to 2^31-1, every entry of both indexes, ranks in
+	// every 13th word at varying offsets (quick: all ones with sparse holes; thorough: four more styles)
+	for _, style := range vk.Pick([]int{4}, []int{4, 2, 0, 3, 6}) {
+		checker.Run(t, Case{Lin: &LinSpec{N: gen.MaxWords, Key: vk.U64(vk.Mix(vk.Seed() + uint64(style)<<20)), Style: style}, Style: "lin-maximum"})
 	}
 	checker.RegressLast(t)
 }
